@@ -208,12 +208,15 @@ func runC06(c *Ctx) {
 		for _, k := range uk {
 			us = append(us, L(S(k), S(units[k])))
 		}
-		in := L(S("rawreport"), DumpProfile(p), L(cfg...), L(us...), c06MatchTable(c06Universe(p), rxs), Bool(relative))
+		// the report command: the filters select the same samples whatever the output format
+		cmd := [][]string{{"proto"}, {"raw"}, {"text"}, {"top"}, {"traces"}, {"tags"}, {"tree"}, {"dot"},
+			{"callgrind"}, {"topproto"}, {"peek", "."}}[r.Intn(11)]
+		in := L(S("rawreport"), DumpProfile(p), L(cfg...), L(us...), c06MatchTable(c06Universe(p), rxs), Bool(relative), Ss(cmd))
 		before := Render(L(c06ObsProfile(p)...))
 		ui := &c06UI{}
 		obs := c06Guard(func() Term {
 			st := ""
-			if err := driver.VerifC06RawReport(p, opts, relative, ui); err != nil {
+			if err := driver.VerifC06RawReport(p, cmd, opts, relative, ui); err != nil {
 				st = "?"
 				for _, n := range optNames {
 					if strings.HasPrefix(err.Error(), "parsing "+n+" regexp") {
@@ -223,7 +226,7 @@ func runC06(c *Ctx) {
 			}
 			return L(append([]Term{S(st)}, c06ObsProfile(p)...)...)
 		})
-		c.Case(gen, in, obs, before != Render(L(c06ObsProfile(p)...)), "op:rawreport", fmt.Sprintf("relative:%v", relative))
+		c.Case(gen, in, obs, before != Render(L(c06ObsProfile(p)...)), "op:rawreport", fmt.Sprintf("relative:%v", relative), "cmd:"+cmd[0])
 	}
 
 	// ---- witnesses of the known findings, always generated
